@@ -26,7 +26,7 @@ static const int req_codes[] = {1, 2, 3, 4, 5, 6, 7, 8, 31};
 #define N_REQ_CODES 9
 static const int edge_codes[] = {1, 2, 3, 4, 5, 6, 7, 8, 31, 0, 0x20, 0xC0, 0xE1};
 #define N_EDGE_CODES 13
-static const int tok_lens[] = {0, 1, 8, 9};
+static const int tok_lens[] = {0, 8, 1, 9}; /* quick request product: the first two, thorough: the first three, edge: all */
 
 struct path_alt {
   const char *name;
@@ -215,26 +215,50 @@ struct casedef {
   int table, dest, type, code, tkl, path, optset_k, optset;
 };
 
+struct combo {
+  int type, dest;
+};
+/* request product: a Confirmable request to a multicast group is compared on the invariants only (RFC 7252 8.1
+ * forbids sending it), so that combination lives in the edge product */
+static const struct combo combos_main[] = {{RS_T_CON, 0}, {RS_T_NON, 0}, {RS_T_NON, 1}};
+static const struct combo combos_mc[] = {{RS_T_NON, 1}};
+static const struct combo combos_edge[] = {{RS_T_CON, 0}, {RS_T_NON, 0}, {RS_T_ACK, 0}, {RS_T_RST, 0}, {RS_T_CON, 1}, {RS_T_NON, 1}, {RS_T_ACK, 1}, {RS_T_RST, 1}};
+
 struct space {
   char name[96];
-  int edge;      /* 0: request product (CON/NON x request codes x token 0/1/8), 1: edge product */
+  int edge;      /* 0: request product, 1: edge product */
   int k;         /* option subsets of size <= k */
-  int ntok, ntype, ncode, npath;
+  int ntok, ncode, npath;
   const int *codes;
   int ntab;
   int tab[16];   /* table indices */
-  int both_dest_all; /* 1: unicast and multicast for every table */
+  int both_dest_all; /* 1: every (type, destination) combination for every table */
   uint64_t per_table[16], base[17];
   uint64_t total;
 };
 
+static int
+space_combos(const struct space *s, int table, const struct combo **out) {
+  if (s->edge) {
+    *out = combos_edge;
+    return 8;
+  }
+  if (tables[table].mcast_only && !s->both_dest_all) {
+    *out = combos_mc;
+    return 1;
+  }
+  *out = combos_main;
+  return 3;
+}
+
 static void
 space_finish(struct space *s) {
-  uint64_t per = (uint64_t)n_optsets[s->k] * (uint64_t)s->npath * (uint64_t)s->ntok * (uint64_t)s->ncode * (uint64_t)s->ntype;
+  uint64_t per = (uint64_t)n_optsets[s->k] * (uint64_t)s->npath * (uint64_t)s->ntok * (uint64_t)s->ncode;
   s->total = 0;
   for (int i = 0; i < s->ntab; i++) {
-    int ndest = (tables[s->tab[i]].mcast_only && !s->both_dest_all) ? 1 : 2;
-    s->per_table[i] = per * (uint64_t)ndest;
+    const struct combo *cb;
+    int ncb = space_combos(s, s->tab[i], &cb);
+    s->per_table[i] = per * (uint64_t)ncb;
     s->base[i] = s->total;
     s->total += s->per_table[i];
   }
@@ -257,10 +281,10 @@ decode(const struct space *s, uint64_t idx, struct casedef *c) {
   idx /= (uint64_t)s->ntok;
   c->code = s->codes[idx % (uint64_t)s->ncode];
   idx /= (uint64_t)s->ncode;
-  c->type = (int)(idx % (uint64_t)s->ntype);
-  idx /= (uint64_t)s->ntype;
-  int mcast_only = tables[c->table].mcast_only && !s->both_dest_all;
-  c->dest = mcast_only ? 1 : (int)(idx % 2);
+  const struct combo *cb;
+  int ncb = space_combos(s, c->table, &cb);
+  c->type = cb[idx % (uint64_t)ncb].type;
+  c->dest = cb[idx % (uint64_t)ncb].dest;
 }
 
 /* --- observation --- */
@@ -819,6 +843,8 @@ eval_case(const struct casedef *cp, uint64_t idx, struct verdict *v) {
       char w[40], g[40];
       kind_str(w, sizeof w, is_app_handler(o->handler), o->kind, o->code);
       kind_str(g, sizeof g, n_hlogs > 0, okind, ocode);
+      if (n_hlogs > 0 && !is_app_handler(o->handler))
+        snprintf(g, sizeof g, "handler"); /* a handler ran that must not: what it answered does not matter */
       int want_sent = o->kind == RS_K_RESPONSE, got_sent = okind == OK_RESP || okind == OK_SEP;
       int same_handler = ran == (is_app_handler(o->handler) ? o->handler : RS_H_NONE);
       if (same_handler && want_sent != got_sent && d.has_noresponse && o->code && (!got_sent || ocode == o->code))
@@ -1031,9 +1057,8 @@ main(int argc, char **argv) {
   struct space *s = &spaces[n_spaces++];
   memset(s, 0, sizeof *s);
   s->k = T ? 3 : 2;
-  snprintf(s->name, sizeof s->name, "requests:CONxNON:opts<=%d", s->k);
-  s->ntok = 3;
-  s->ntype = 2;
+  snprintf(s->name, sizeof s->name, "requests:CON,NON,NON-mcast:opts<=%d", s->k);
+  s->ntok = T ? 3 : 2;
   s->codes = req_codes;
   s->ncode = N_REQ_CODES;
   s->npath = N_PATHS;
@@ -1050,7 +1075,6 @@ main(int argc, char **argv) {
   s->k = T ? 2 : 1;
   snprintf(s->name, sizeof s->name, "edge:4types:13codes:tkl0-9:opts<=%d", s->k);
   s->ntok = 4;
-  s->ntype = 4;
   s->codes = edge_codes;
   s->ncode = N_EDGE_CODES;
   s->npath = T ? N_PATHS : 3;
